@@ -10,6 +10,8 @@ def extra(led, tier, seed):
     from contracts import tree_print
     led.extend(tree_print.rejection_table())
     led.extend(tree_print.native_end_to_end(seed))
+    from contracts import infer_local
+    led.extend(o for o in infer_local.native_locality_large(seed, tier) if "Kauri" in o.name)
     # the printed tree is compared with Tree.predict: the model's predict must BE tree_.predict on the user's columns, and fit must
     # have grown tree_ on those same columns (features of tree_ index the validated data, nothing dropped or reordered)
     from contracts import predict_glue, kauri_fit
